@@ -8,6 +8,11 @@ ALL = ["C%02d" % i for i in range(1, 21)]
 
 # pid -> (category, level text, level note, technique, design_ref)
 CHECKS = {
+ "C16": ("proof",
+         "Round trip, rotation losslessness and the GC rule are proved in Coq for all entries, sequences, sizes, thresholds and clocks, about hand-written executable byte-level models of clog.go/file.go (formatter, a recogniser for the entry regexp, split/Decode with TrimSpace and time.Parse range checks; write/rotate/GC over an abstract directory). Every run ties the models to the current source by running the real Format/Decode pair, the real main and secondary loggers and the real gcOldFiles on ~1,400 (quick) / ~14,800 (thorough) generated cases; the model's output and an independent plain-meaning oracle are evaluated in Coq's VM. The stated round trip is refuted with a witness (goroutine 0 + file '12 a.go') replayed on the real code and listed as a known finding; what is proved carries the extra guards listed in Properties/C16.v, each replayed as a probe.",
+         "Trusted: Coq kernel+VM, harness+hook. Assumed: time package conversions between civil fields and instants, bufio chunking (the model's split sees the whole input; tokens >= 64 KiB are outside), multi-byte runes matched by the regexp's '.', constant per-file header size (measured per run), GC right after a flush, distinct file stamps.",
+         "Rocq/Coq proof (induction over entry lists and operation sequences) + differential correspondence and probes evaluated by vm_compute",
+         "DESIGN.md section 6, C16"),
  "C03": ("proof",
          "Executable model (Model/Verdict.v) of parseInterpretation's effect, the collector's tallies, checkAuditViolations, the -S early exit and conduct's four-stage error funnel with ignCancel and the deferred audit re-check. Theorems: per (auditor, result) pair the last applicable clause decides for every clause sequence incl. the shorthand and members declared later; the verdict is non-nil iff the documented rule says so; for every interpretation and report stream -S yields the same verdict (stops early only when already fouled); for all seven finish orders and all component error values an audit verdict, a cleanup failure and every component error that does not present itself as a cancellation reach the exit status, and a non-zero status has a cause; the full funnel statement is refuted with a witness (a real cause hidden behind a trailing cancellation is dropped). Tie: 500 (thorough 10000) generated audiences with interpretation sections x histories through the real audition+collector functions without and with -S, compared in Coq with the model and with the documented rule computed from the implementation's own tallies and the generator's independent last-wins computation; plus 32 end-to-end plays of the real binary, one per single cause x {-S}, checking exit status and result.js Foul.",
          "Trusted: Coq kernel+VM, harness+hook. Modelled: error values as cause lists with Is/Unwrap looking at the last element; which error values components produce is observed end-to-end only. Directory/upload failures are outside the model.",
